@@ -56,3 +56,19 @@ def stats():
     m = master()
     nkw = sum(len(v[r]) for v in m.values() for r in STEP_ROLES + TITLE_ROLES)
     return {"dialects": len(m), "keywords": nkw}
+
+
+def derived_unknown_names():
+    """Names that are NOT dialect codes but are made from the codes of the table: the language part alone, another region or
+    script, other letter case, '_' for '-', one letter more or less.  A '# language:' header with such a name must be reported
+    as an unknown dialect (and nothing else may happen)."""
+    import re
+    m = master()
+    out = []
+    for c in sorted(m):
+        base = c.split("-")[0]
+        for n in (base, base + "-XX", base + "-Latn", base + "_" + "".join(c.split("-")[1:]) if "-" in c else base + "_XX",
+                  c.upper(), c.lower(), c.title(), c.swapcase(), c.replace("-", "_"), c + "-x", c + "x", c[:-1], c + "-", "-" + c):
+            if n and n not in m and n not in out and re.fullmatch(r"[a-zA-Z\-_]+", n):
+                out.append(n)
+    return out
